@@ -23,6 +23,7 @@ import (
 	"encoding/hex"
 	"fmt"
 	"io"
+	"runtime"
 	"strings"
 
 	mqtt "github.com/at-wat/mqtt-go"
@@ -61,6 +62,7 @@ func runC06(c *Ctx) {
 	// last shard only, at the very end: the inputs a defective library may die on
 	c06ClientPart(c, true)
 	c06ReadPacketDeferred(c, deferred)
+	c06HugePacket(c)
 	Announce("")
 }
 
@@ -491,4 +493,74 @@ func c06ReadPacketDeferred(c *Ctx, deferred [][]byte) {
 	c06Add(c, "b_readpacket_streams_evaluated", cnt.evals)
 	c06Add(c, "b_overlong_length_evaluated", cnt.malformed)
 	c.Sample(map[string]any{"part": "b_readpacket", "stream_hex": hex.EncodeToString(deferred[len(deferred)-1]), "reference": "remaining length longer than 4 bytes"})
+}
+
+func c06Pat(i int) byte { return byte(i * 31) }
+
+// c06Gen streams a packet without holding it: header bytes, then n bytes of a fixed pattern.
+type c06Gen struct {
+	head   []byte
+	n      int
+	pos    int
+	maxReq int
+}
+
+func (g *c06Gen) Read(p []byte) (int, error) {
+	if len(p) > g.maxReq {
+		g.maxReq = len(p)
+	}
+	if len(g.head) > 0 {
+		k := copy(p, g.head)
+		g.head = g.head[k:]
+		return k, nil
+	}
+	if g.pos >= g.n {
+		return 0, io.EOF
+	}
+	k := len(p)
+	if k > g.n-g.pos {
+		k = g.n - g.pos
+	}
+	if k > 1<<20 {
+		k = 1 << 20 // a transport delivers at most 1 MiB at a time
+	}
+	for i := 0; i < k; i++ {
+		p[i] = c06Pat(g.pos + i)
+	}
+	g.pos += k
+	return k, nil
+}
+
+// c06HugePacket: one complete, legal packet of 2^27 body bytes really arrives (shard 0 only).  No
+// single buffer may be larger than the largest packet the protocol allows, nor the sum of what is
+// allocated while reading it.
+func c06HugePacket(c *Ctx) {
+	c.Bound("b_huge_packet", "one complete PUBLISH frame with a body of 134,217,728 bytes streamed in 1 MiB pieces through VerifReadPacket: returned unchanged; capacity of the returned buffer, largest Read request and bytes allocated meanwhile (runtime.MemStats.TotalAlloc) each <= 268,435,455 (+1 MiB slack for the last)")
+	if c.Shard != 0 {
+		return
+	}
+	const n = 1 << 27
+	g := &c06Gen{head: append([]byte{0x30}, env.EncodeRemLen(n)...), n: n}
+	runtime.GC()
+	var m0, m1 runtime.MemStats
+	runtime.ReadMemStats(&m0)
+	_, _, body, err, pan := c06SafeRead(g)
+	runtime.ReadMemStats(&m1)
+	c.Res.Evaluations++
+	c06Add(c, "b_huge_packet_bytes", n)
+	in := map[string]any{"body_bytes": n}
+	switch {
+	case pan != nil:
+		c.EnumFail("b_huge_packet", "readpacket-panic:"+c06PanicMsg(pan), fmt.Sprintf("readPacket panicked on a complete %d-byte packet: %v", n, pan), in)
+	case err != nil || len(body) != n:
+		c.EnumFail("b_huge_packet", "readpacket-rejects-complete-frame", fmt.Sprintf("a complete packet with %d body bytes: err=%v, %d bytes returned", n, err, len(body)), in)
+	case body[0] != 0 || body[12345] != c06Pat(12345) || body[n-1] != c06Pat(n-1):
+		c.EnumFail("b_huge_packet", "readpacket-misframes", "a complete huge packet was returned with different contents", in)
+	case cap(body) > c06MaxPacket || g.maxReq > c06MaxPacket:
+		c.EnumFail("b_huge_packet", "readpacket-oversize-buffer", fmt.Sprintf("reading one %d-byte packet used a buffer of capacity %d (largest Read request %d); the largest MQTT packet body is %d", n, cap(body), g.maxReq, c06MaxPacket), in)
+	case m1.TotalAlloc-m0.TotalAlloc > c06MaxPacket+1<<20:
+		c.EnumFail("b_huge_packet", "readpacket-allocates-more-than-max-packet", fmt.Sprintf("reading one %d-byte packet allocated %d bytes; the largest MQTT packet is %d", n, m1.TotalAlloc-m0.TotalAlloc, c06MaxPacket), in)
+	}
+	body = nil
+	runtime.GC()
 }
